@@ -88,6 +88,8 @@ var c12HTMLPrologue = []string{
 	"<meta content=\"text/html; charset=decoy-no-http-equiv\">", "<meta http-equiv=\"refresh\" content=\"5; url=x\">", "<meta http-equiv=\"X-UA-Compatible\" content=\"IE=edge; charset=decoy-ua\">",
 	"<link rel=\"stylesheet\" href=\"a.css\" charset=\"decoy-link\">",
 	"<meta name=\"description\" content=\"A short guide to charset detection\">", "<meta name=\"keywords\" content=\"charset\">", "<meta content=\"charset charset =\">", "<meta name=\"x\" content=\"the charset; charset\">",
+	"<meta http-equiv=\"Content-Type\" content=\"text/html\"><meta name=\"description\" content=\"mentions charset=decoy-after-pragma\">",
+	"<script src=\"a.js\"/>var s = \"<meta charset='fake-in-selfclosed-script'>\";</script>", "<title/>Title <meta charset=fake-in-selfclosed-title></title>", "<style/>/* <meta charset=fake-in-selfclosed-style> */</style>", "<textarea/><meta charset=fake-in-textarea></textarea>",
 	"<meta http-equiv=\"Content-Language\" content=\"en\">", "<meta http-equiv=\"X-UA-Compatible\" content=\"IE=edge\">", "<meta name=\"viewport\" content=\"width=device-width\"><meta name=\"generator\" content=\"x\">", "<meta name=\"charset\" content=\"decoy-name\">", "<meta property=\"og:title\" content=\"t\">", "\n", "  ", "<base href=\"/\">",
 }
 
